@@ -37,7 +37,7 @@ impl Property for C07 {
         let mut cfg = DocCfg::new(&f);
         cfg.max_blocks = 9;
         cfg.depth = 4;
-        (crate::gen::doc::text(&cfg), prop_oneof![Just(String::new()), Just(".md".to_string())], 0u8..2)
+        (crate::gen::doc::text(&cfg), prop_oneof![Just(String::new()), Just(".md".to_string())], prop_oneof![Just(0u8), Just(1u8), Just(3u8)])
             .prop_map(|(text, ext, door)| DocCase { text, ext, door, prev: String::new() })
             .boxed()
     }
